@@ -23,6 +23,8 @@ func rulesC09(c *Ctx, r *Report) {
 	r.explain("Decides: (T1-T3) each shipped matrix PAM120/160/250, BLOSUM45/62/80 is assigned exactly once, in an init, from a literal whose constant entries are complete over its alphabet (which contains the 20 standard residues and Gap), symmetric, with {Gap,Gap}=0, and nothing else in the module writes it — the property's last sentence for every entry; (T4) Levenshtein's initialiser stores 0 on the i==j edge and -1 on the other for all byte pairs, by SSA shape; (ORD-M) decideOnStep returns a maximal argument in all 13 weak orderings; (SIB1/SIB2) the Global and Local recurrences agree symbolically. Not decided: optimality itself, equality with the edit distance. Added rules: (CLAMP) Local's clamp on every store path (optimality of Local needs the floor at zero); T4 accepts counted and range-int loops over 0..255 with no other exit.")
 	r.assume("compile-time constant evaluation by go/types; SubstitutionMatrix.Get is the only reader of the tables in the aligners")
 	rulesLocalClamp(c, r)
+	rulesStepsReversed(c, r) // the steps come out in order and their buffer holds the longest path (no panic on long alignments)
+	rulesPureAlign(c, r) // the score lookups read the matrix as it is now: no state kept between calls, no writes
 	p := c.pkg("align")
 	if p == nil {
 		r.undecided("T1", "align", "anchor", "", "package align not found")
@@ -143,6 +145,28 @@ func ruleLevenshtein(c *Ctx, r *Report, funcs []*ssa.Function) {
 			}
 		})
 	}
+	// the table is the variable's alone: its map is not stored into another variable (an alias edited later edits it too)
+	var aliases []string
+	for _, f := range c.moduleFuncs() {
+		if funcPkgPath(f) != modPath+"/align" {
+			continue
+		}
+		instrs(f, func(in ssa.Instruction) {
+			st, ok := in.(*ssa.Store)
+			if !ok || st.Addr == ssa.Value(g) {
+				return
+			}
+			v := st.Val
+			if ct, ok := v.(*ssa.ChangeType); ok {
+				v = ct.X
+			}
+			if isLoadOf(v, g) {
+				aliases = append(aliases, c.pos(st.Pos()))
+			}
+		})
+	}
+	r.check(len(aliases) == 0, "T4", where, "no second name for the table", "", "the table's map is never stored into another variable: only writes through Levenshtein itself can change it",
+		fmt.Sprintf("the table's map is stored into another variable at %v: edits through that variable change Levenshtein too", aliases))
 	// updates made by a helper of the package that an initialiser hands the table to: fillRow(Levenshtein, i)
 	paramArg := map[*ssa.Parameter]ssa.Value{}
 	if len(ups) == 0 {
